@@ -9,6 +9,16 @@ ALL operation sequences (`run`), ALL adversary choices (the TOC bytes at every (
 bytes of every compressed read, read failures) and ALL interleavings of the atomic steps
 (`prefetchBegin` = `readAndCache` up to the end of its critical section, `prefetchCommit` = its
 `w.Commit()`, `layerVerify` ∋ the critical section of `VerifyTOC`).
+
+FINDING reflected here.  `Cache(WithReader(sr))` (`layer.backgroundFetch`) walks the blob through
+`metadata.Reader.Clone(sr)`.  The memory metadata store's `Clone` re-parses the TOC from `sr` and
+nobody compares the digest of that TOC, so prefetched chunks are compared with digests of the
+adversary's choice (operation `prefetchBeginWith c reply dg`, `dg` arbitrary).  With that operation
+the statements about BYTES are false (`*_full_false` below, witness replayed on the implementation
+every run); they are proved for histories whose clone-based prefetches carried the TOC of the layer
+object (`FaithfulRun`: always so for the db metadata store and for `Cache()` without `WithReader`)
+and are therefore named `…_partial`.  The statements about the TOC DIGEST, the prefetch/verify
+handshake and the configuration hold at full strength, clone-based prefetches included.
 -/
 import SV.Lemmas.Verify
 
@@ -64,48 +74,77 @@ theorem layerVerify_requires_digest (cfg : Cfg) (tb : β) (ops : List (Op β δ)
   · rw [h] at hm; cases hm
   · exact hd
 
-/-- Invariant, for every history: a verified layer's chunk cache (and every prefetch writer still
-in flight) holds only entries that were compared with their recorded digest before insertion, and
-their bytes do match the recorded digests. -/
-theorem no_unverified_bytes_cached_for_verified_layer (cfg : Cfg) (tb : β) (ops : List (Op β δ))
+/-- For every history (clone-based prefetches with a foreign TOC included): every entry in the
+chunk cache of a verified layer, and every prefetch writer still in flight, was COMPARED with a
+chunk digest before it was written (nothing enters unchecked). Whether that digest was the one of
+this layer's TOC is what `FaithfulRun` adds below. -/
+theorem verified_layer_cache_all_compared (cfg : Cfg) (tb : β) (ops : List (Op β δ))
+    (hv : (reach H parse cfg tb ops).layerR = .verified) :
+    (∀ ke ∈ (reach H parse cfg tb ops).cache, ke.2.ver = true) ∧
+    (∀ p ∈ (reach H parse cfg tb ops).pending, p.2.ver = true) := by
+  have hi : InvF (reach H parse cfg tb ops) := invF_run H parse ops (invF_init parse cfg tb)
+  generalize reach H parse cfg tb ops = s at hv hi ⊢
+  have hl := (hi.ver hv).2.2
+  refine ⟨hi.clean (by rw [hv]; simp) hl, fun p hp => ?_⟩
+  cases h : p.2.ver with
+  | true => rfl
+  | false => have := hi.pend p hp h; rw [hl] at this; cases this
+
+/-- Invariant, for every history whose clone-based prefetches carried the TOC of the layer object:
+a verified layer's chunk cache (and every prefetch writer still in flight) holds only entries that
+were compared with their recorded digest before insertion, and their bytes do match the digests
+recorded in the TOC of this layer object. -/
+theorem no_unverified_bytes_cached_for_verified_layer_partial (cfg : Cfg) (tb : β) (ops : List (Op β δ))
+    (hf : FaithfulRun H parse (init parse cfg tb) ops)
     (hv : (reach H parse cfg tb ops).layerR = .verified) :
     (∀ ke ∈ (reach H parse cfg tb ops).cache,
         ke.2.ver = true ∧ PiecesGood H (reach H parse cfg tb ops).toc ke.2.pieces) ∧
     (∀ p ∈ (reach H parse cfg tb ops).pending,
         p.2.ver = true ∧ PiecesGood H (reach H parse cfg tb ops).toc p.2.pieces) := by
-  have hi : Inv H (reach H parse cfg tb ops) := inv_run H parse ops (inv_init H parse cfg tb)
-  generalize reach H parse cfg tb ops = s at hv hi ⊢
-  have hl := (hi.ver hv).2.2
-  have ha := hi.clean (by rw [hv]; simp) hl
-  refine ⟨fun ke hke => ⟨ha ke hke, hi.good ke hke (ha ke hke)⟩, fun p hp => ?_⟩
-  have hpv : p.2.ver = true := by
-    cases h : p.2.ver with
-    | true => rfl
-    | false => have := hi.pend p hp h; rw [hl] at this; cases this
-  exact ⟨hpv, hi.pgood p hp hpv⟩
+  have hi : Inv H (reach H parse cfg tb ops) := inv_run H parse ops (inv_init H parse cfg tb) hf
+  obtain ⟨h1, h2⟩ := verified_layer_cache_all_compared H parse cfg tb ops hv
+  generalize reach H parse cfg tb ops = s at hv hi h1 h2 ⊢
+  exact ⟨fun ke hke => ⟨h1 ke hke, hi.good ke hke (h1 ke hke)⟩,
+         fun p hp => ⟨h2 p hp, hi.pgood p hp (h2 p hp)⟩⟩
+
+/-- `FaithfulRun` of a concatenated history. -/
+theorem faithfulRun_append (s : St β δ) (ops1 ops2 : List (Op β δ)) :
+    FaithfulRun H parse s (ops1 ++ ops2) ↔
+      FaithfulRun H parse s ops1 ∧ FaithfulRun H parse (run H parse s ops1) ops2 := by
+  induction ops1 generalizing s with
+  | nil => simp [FaithfulRun, run]
+  | cons o rest ih =>
+    simp only [List.cons_append, FaithfulRun, run]
+    rw [ih]
+    exact ⟨fun ⟨a, b, c⟩ => ⟨⟨a, b⟩, c⟩, fun ⟨⟨a, b⟩, c⟩ => ⟨a, b, c⟩⟩
 
 /-- After a successful mount with TOC digest `D` (history `ops1` before it is arbitrary), for every
 continuation `ops2` on the same layer object and every further operation `o`: whatever `o` returns
 as file data consists of chunks whose bytes hash to the digest the TOC records for that chunk; and
-that TOC is the one whose bytes hash to `D`. -/
-theorem reads_verified (cfg : Cfg) (tb : β) (ops1 : List (Op β δ)) (l : Labels δ) (D : δ)
+that TOC is the one whose bytes hash to `D`.  Hypothesis `hf`: clone-based prefetches (before and
+after the mount) carried the TOC of the layer object. -/
+theorem reads_verified_partial (cfg : Cfg) (tb : β) (ops1 : List (Op β δ)) (l : Labels δ) (D : δ)
     (ops2 : List (Op β δ)) (o : Op β δ) (ps : List (Nat × β))
     (hcfg : cfg.disableVerification = false) (hl : l.toc = some (some D))
     (hm : (step H parse (reach H parse cfg tb ops1) (.mount l)).2 = .ok)
     (hne : NoEvict ops2)
+    (hf : FaithfulRun H parse (init parse cfg tb) (ops1 ++ .mount l :: ops2))
     (ho : (step H parse (run H parse (step H parse (reach H parse cfg tb ops1) (.mount l)).1 ops2) o).2
             = .data ps) :
     PiecesGood H (reach H parse cfg tb ops1).toc ps ∧ H (reach H parse cfg tb ops1).tocBytes = D := by
   obtain ⟨hd, hv⟩ := mount_requires_digest H parse cfg tb ops1 l D hcfg hl hm
-  have hi0 : Inv H (reach H parse cfg tb ops1) := inv_run H parse ops1 (inv_init H parse cfg tb)
-  generalize reach H parse cfg tb ops1 = s at hm hd hv hi0 ho ⊢
-  have hi1 : Inv H (step H parse s (.mount l)).1 := inv_step H parse hi0 _
-  have hf1 : Frame s (step H parse s (.mount l)).1 := frame_step H parse s _ rfl
-  generalize (step H parse s (.mount l)).1 = s1 at hv hi1 hf1 ho
-  have hi2 : Inv H (run H parse s1 ops2) := inv_run H parse ops2 hi1
-  have hf2 : Frame s1 (run H parse s1 ops2) := frame_run H parse ops2 s1 hne
-  have hout := step_out H parse hi2 (hf2.verified hv) o ps ho
-  rw [hf2.toc, hf1.toc] at hout
+  obtain ⟨hf1, hf2⟩ := (faithfulRun_append H parse _ _ _).mp hf
+  have hi0 : Inv H (reach H parse cfg tb ops1) := inv_run H parse ops1 (inv_init H parse cfg tb) hf1
+  unfold reach at *
+  generalize run H parse (init parse cfg tb) ops1 = s at hm hd hv hi0 ho hf2 ⊢
+  have hi1 : Inv H (step H parse s (.mount l)).1 := inv_step H parse hi0 _ hf2.1
+  have hf1' : Frame s (step H parse s (.mount l)).1 := frame_step H parse s _ rfl
+  have hf3 := hf2.2
+  generalize (step H parse s (.mount l)).1 = s1 at hv hi1 hf1' ho hf3
+  have hi2 : Inv H (run H parse s1 ops2) := inv_run H parse ops2 hi1 hf3
+  have hfr : Frame s1 (run H parse s1 ops2) := frame_run H parse ops2 s1 hne
+  have hout := step_out H parse hi2 (hfr.verified hv) o ps ho
+  rw [hfr.toc, hf1'.toc] at hout
   exact ⟨hout, hd⟩
 
 /-- The prefetch / `VerifyTOC` race, all schedules.  A prefetched chunk that fails verification
@@ -127,15 +166,16 @@ theorem bad_prefetch_blocks_verify (cfg : Cfg) (tb : β) (ops0 : List (Op β δ)
     ((reach H parse cfg tb ops0).prohibit = true →
       step H parse (reach H parse cfg tb ops0) (.prefetchBegin c (some b))
         = (reach H parse cfg tb ops0, .err)) := by
-  have hi0 : Inv H (reach H parse cfg tb ops0) := inv_run H parse ops0 (inv_init H parse cfg tb)
+  have hi0 : InvF (reach H parse cfg tb ops0) := invF_run H parse ops0 (invF_init parse cfg tb)
   generalize reach H parse cfg tb ops0 = s at hmiss hbad hi0 ⊢
+  have hbad' : digOk H (s.toc.dig c) b = false := hbad
   constructor
   · intro hp ops hne D l
     have hl1 : (step H parse s (.prefetchBegin c (some b))).1.lastVerifyErr = true := by
-      simp [step, prefetchBegin, prefetchDecide, hmiss, hbad, hp]
-    have hi1 : Inv H (step H parse s (.prefetchBegin c (some b))).1 := inv_step H parse hi0 _
+      simp [step, prefetchBegin, prefetchDecide, prefetchDecideWith, hmiss, hbad', hp]
+    have hi1 : InvF (step H parse s (.prefetchBegin c (some b))).1 := invF_step H parse hi0 _
     generalize (step H parse s (.prefetchBegin c (some b))).1 = s1 at hl1 hi1
-    have hi2 : Inv H (run H parse s1 ops) := inv_run H parse ops hi1
+    have hi2 : InvF (run H parse s1 ops) := invF_run H parse ops hi1
     have hl2 := (frame_run H parse ops s1 hne).lve hl1
     generalize run H parse s1 ops = s2 at hi2 hl2
     have hv : (verifyTOC H s2 D).2 = .err := by
@@ -162,7 +202,7 @@ theorem bad_prefetch_blocks_verify (cfg : Cfg) (tb : β) (ops0 : List (Op β δ)
       have := (hi2.ver hver).2.2
       rw [hl2] at this; cases this
   · intro hp
-    simp [step, prefetchBegin, prefetchDecide, hmiss, hbad, hp]
+    simp [step, prefetchBegin, prefetchDecide, prefetchDecideWith, hmiss, hbad', hp]
 
 /-- `filesystem.Mount` without a TOC digest label succeeds only under one of the two configuration
 switches (`disable_verification`, or `allow_no_verification` together with the skip-verify label). -/
@@ -188,21 +228,39 @@ theorem unverified_requires_config (cfg : Cfg) (tb : β) (ops : List (Op β δ))
 /-- With both switches off, and the layer API reached only through the filesystem (mount, store
 lookup, prefetch, reads, passthrough, eviction — no bare `SkipVerify`), EVERY byte any operation ever
 returns is digest-correct with respect to the TOC of the layer object that served it, and that
-layer object is `verified` — for all histories, with no assumption on which mounts succeeded. -/
-theorem strict_config_reads_verified (cfg : Cfg) (tb : β) (ops : List (Op β δ)) (o : Op β δ)
+layer object is `verified` — for all histories whose clone-based prefetches carried the TOC of the
+layer object, with no assumption on which mounts succeeded. -/
+theorem strict_config_reads_verified_partial (cfg : Cfg) (tb : β) (ops : List (Op β δ)) (o : Op β δ)
     (ps : List (Nat × β))
     (hd : cfg.disableVerification = false) (ha : cfg.allowNoVerification = false)
     (hns : ∀ o' ∈ ops, o'.isLayerSkip = false)
+    (hf : FaithfulRun H parse (init parse cfg tb) ops)
     (ho : (step H parse (reach H parse cfg tb ops) o).2 = .data ps) :
     PiecesGood H (reach H parse cfg tb ops).toc ps ∧ (reach H parse cfg tb ops).layerR = .verified := by
-  have hi : Inv H (reach H parse cfg tb ops) := inv_run H parse ops (inv_init H parse cfg tb)
+  have hi : Inv H (reach H parse cfg tb ops) := inv_run H parse ops (inv_init H parse cfg tb) hf
   have hnsk : (reach H parse cfg tb ops).layerR ≠ .skipped :=
     strict_run H parse ops (init parse cfg tb) hd ha hns (by simp [init])
   generalize reach H parse cfg tb ops = s at hi hnsk ho ⊢
   cases hr : s.layerR with
   | skipped => exact absurd hr hnsk
-  | none => exact absurd ho (step_none_no_data H parse s hr o ps)
+  | none => exact absurd hr (step_data H parse s o ps ho).1
   | verified => exact ⟨step_out H parse hi hr o ps ho, rfl⟩
+
+/-- With both switches off and no bare `SkipVerify`, data is only ever returned by a `verified` layer
+object whose TOC hashes to a digest some mount presented — for ALL histories (full strength). -/
+theorem strict_config_data_only_from_verified (cfg : Cfg) (tb : β) (ops : List (Op β δ)) (o : Op β δ)
+    (ps : List (Nat × β))
+    (hd : cfg.disableVerification = false) (ha : cfg.allowNoVerification = false)
+    (hns : ∀ o' ∈ ops, o'.isLayerSkip = false)
+    (ho : (step H parse (reach H parse cfg tb ops) o).2 = .data ps) :
+    (reach H parse cfg tb ops).layerR = .verified := by
+  have hnsk : (reach H parse cfg tb ops).layerR ≠ .skipped :=
+    strict_run H parse ops (init parse cfg tb) hd ha hns (by simp [init])
+  generalize reach H parse cfg tb ops = s at hnsk ho ⊢
+  cases hr : s.layerR with
+  | skipped => exact absurd hr hnsk
+  | none => exact absurd hr (step_data H parse s o ps ho).1
+  | verified => rfl
 
 end
 
@@ -277,6 +335,106 @@ theorem layerVerify_rejects_the_counterexamples :
     (layerVerify id (layerVerify id exInit 1).1 2).2 = .err ∧
     (layerVerify id (read id (layerSkip exInit) exBadRead).1 1).2 = .err := by
   refine ⟨rfl, rfl, rfl⟩
+
+/-! ## the statements about bytes at full strength, and why they are false for the current code
+
+The memory metadata store's `Clone` re-parses the TOC from the section reader handed to
+`Cache(WithReader(sr))` (`layer.backgroundFetch`) and nobody compares its digest: operation
+`prefetchBeginWith c reply dg` with `dg` of the adversary's choice. -/
+
+/-- The witness: the layer is verified with the right digest (`1`); the background fetch then walks
+a blob whose chunk 0 has bytes `5` and whose (re-parsed, unverified) TOC pins digest `5` for it. -/
+def exCloneOps : List (Op Nat Nat) := [.prefetchBeginWith 0 (some 5) (some 5), .prefetchCommit 0]
+
+theorem exCloneOps_noEvict : NoEvict exCloneOps := by
+  intro o ho
+  simp only [exCloneOps, List.mem_cons, List.not_mem_nil, or_false] at ho
+  rcases ho with rfl | rfl <;> rfl
+
+/-- On the current code a VERIFIED layer serves, from its chunk cache, bytes that do not match the
+digest its TOC records: mount with the right digest, clone-based prefetch of a forged chunk with a
+forged TOC, read. -/
+theorem clone_prefetch_serves_forged_bytes :
+    let l : Labels Nat := ⟨some (some 1), false⟩
+    let s1 := (step id (fun _ => exToc) (reach id (fun _ => exToc) {} 1 []) (.mount l)).1
+    let s2 := run id (fun _ => exToc) s1 exCloneOps
+    (step id (fun _ => exToc) (reach id (fun _ => exToc) {} 1 []) (.mount l)).2 = .ok ∧
+    s2.layerR = .verified ∧
+    (step id (fun _ => exToc) s2 (.read [{ c := 0, reply := none }])).2 = .data [(0, 5)] ∧
+    s2.toc.dig 0 = some 7 := by
+  refine ⟨rfl, rfl, rfl, rfl⟩
+
+/-- `reads_verified` without the hypothesis on clone-based prefetches. -/
+def reads_verified_full : Prop :=
+  ∀ (β δ : Type) [DecidableEq δ] (H : β → δ) (parse : β → Toc δ) (cfg : Cfg) (tb : β)
+    (ops1 : List (Op β δ)) (l : Labels δ) (D : δ) (ops2 : List (Op β δ)) (o : Op β δ)
+    (ps : List (Nat × β)),
+    cfg.disableVerification = false → l.toc = some (some D) →
+    (step H parse (reach H parse cfg tb ops1) (.mount l)).2 = .ok → NoEvict ops2 →
+    (step H parse (run H parse (step H parse (reach H parse cfg tb ops1) (.mount l)).1 ops2) o).2
+      = .data ps →
+    PiecesGood H (reach H parse cfg tb ops1).toc ps
+
+theorem reads_verified_full_false : ¬ reads_verified_full := by
+  intro h
+  have ht : (reach id (fun _ => exToc) {} 1 []).toc = exToc := rfl
+  have h1 := h Nat Nat id (fun _ => exToc) {} 1 [] ⟨some (some 1), false⟩ 1 exCloneOps
+    (.read [{ c := 0, reply := none }]) [(0, 5)] rfl rfl rfl exCloneOps_noEvict rfl
+  have h2 := h1 (0, 5) (List.mem_cons_self ..)
+  rw [ht] at h2
+  exact absurd h2 (by decide)
+
+/-- `no_unverified_bytes_cached_for_verified_layer` without that hypothesis. -/
+def no_unverified_bytes_cached_for_verified_layer_full : Prop :=
+  ∀ (β δ : Type) [DecidableEq δ] (H : β → δ) (parse : β → Toc δ) (cfg : Cfg) (tb : β)
+    (ops : List (Op β δ)),
+    (reach H parse cfg tb ops).layerR = .verified →
+    ∀ ke ∈ (reach H parse cfg tb ops).cache,
+      ke.2.ver = true ∧ PiecesGood H (reach H parse cfg tb ops).toc ke.2.pieces
+
+theorem no_unverified_bytes_cached_for_verified_layer_full_false :
+    ¬ no_unverified_bytes_cached_for_verified_layer_full := by
+  intro h
+  have hc : (reach id (fun _ => exToc) {} 1 (.layerVerify 1 :: exCloneOps)).cache
+      = [(.chunk 0, ⟨[(0, 5)], true⟩)] := rfl
+  have ht : (reach id (fun _ => exToc) {} 1 (.layerVerify 1 :: exCloneOps)).toc = exToc := rfl
+  have h1 := h Nat Nat id (fun _ => exToc) {} 1 (.layerVerify 1 :: exCloneOps) rfl
+    (.chunk 0, ⟨[(0, 5)], true⟩) (by rw [hc]; exact List.mem_cons_self ..)
+  have h2 := h1.2 (0, 5) (List.mem_cons_self ..)
+  rw [ht] at h2
+  exact absurd h2 (by decide)
+
+/-- `strict_config_reads_verified` without that hypothesis. -/
+def strict_config_reads_verified_full : Prop :=
+  ∀ (β δ : Type) [DecidableEq δ] (H : β → δ) (parse : β → Toc δ) (cfg : Cfg) (tb : β)
+    (ops : List (Op β δ)) (o : Op β δ) (ps : List (Nat × β)),
+    cfg.disableVerification = false → cfg.allowNoVerification = false →
+    (∀ o' ∈ ops, o'.isLayerSkip = false) →
+    (step H parse (reach H parse cfg tb ops) o).2 = .data ps →
+    PiecesGood H (reach H parse cfg tb ops).toc ps
+
+theorem strict_config_reads_verified_full_false : ¬ strict_config_reads_verified_full := by
+  intro h
+  have ht : (reach id (fun _ => exToc) {} 1 (.mount ⟨some (some 1), false⟩ :: exCloneOps)).toc = exToc := rfl
+  have h1 := h Nat Nat id (fun _ => exToc) {} 1 (.mount ⟨some (some 1), false⟩ :: exCloneOps)
+    (.read [{ c := 0, reply := none }]) [(0, 5)] rfl rfl
+    (by
+      intro o ho
+      simp only [exCloneOps, List.mem_cons, List.not_mem_nil, or_false] at ho
+      rcases ho with rfl | rfl | rfl <;> rfl)
+    rfl
+  have h2 := h1 (0, 5) (List.mem_cons_self ..)
+  rw [ht] at h2
+  exact absurd h2 (by decide)
+
+/-- The partial theorems are not vacuous where it matters: a clone that carries the TOC of the layer
+object (db store; memory store with an unchanged TOC range) rejects the forged chunk after the
+decision and never commits it. -/
+example :
+    let s1 := (step id (fun _ => exToc) (reach id (fun _ => exToc) {} 1 []) (.layerVerify 1)).1
+    FaithfulRun id (fun _ => exToc) s1 [.prefetchBeginWith 0 (some 5) (some 7)] ∧
+    step id (fun _ => exToc) s1 (.prefetchBeginWith 0 (some 5) (some 7)) = (s1, .err) := by
+  refine ⟨⟨rfl, trivial⟩, rfl⟩
 
 /-! ## non-vacuity -/
 
